@@ -2041,26 +2041,32 @@ func (c *Core) sealInitCommon(ctx context.Context, req *logical.Request) (retErr
 	authResults := c.performPolicyChecks(ctx, acl, te, req, entity, &policy.CheckOpts{
 		RootPrivsRequired: true,
 	})
+	// A token that has just spent its last use is revoked whether or not the
+	// request is allowed. We do this immediately here because we won't have
+	// a token store after sealing.
+	revokeSpentToken := func() {
+		if te != nil && te.NumUses == tokenRevocationPending {
+			leaseID, err := c.expiration.CreateOrFetchRevocationLeaseByToken(c.activeContext.Load(), te)
+			if err == nil {
+				err = c.expiration.Revoke(c.activeContext.Load(), leaseID)
+			}
+			if err != nil {
+				c.logger.Error("token needed revocation before seal but failed to revoke", "error", err)
+				retErr = multierror.Append(retErr, ErrInternalError)
+			}
+		}
+	}
+
 	if !authResults.Allowed {
 		retErr = multierror.Append(retErr, authResults.Error)
 		if authResults.Error.ErrorOrNil() == nil || authResults.DeniedError {
 			retErr = multierror.Append(retErr, logical.ErrPermissionDenied)
 		}
+		revokeSpentToken()
 		return retErr
 	}
 
-	if te != nil && te.NumUses == tokenRevocationPending {
-		// Token needs to be revoked. We do this immediately here because
-		// we won't have a token store after sealing.
-		leaseID, err := c.expiration.CreateOrFetchRevocationLeaseByToken(c.activeContext.Load(), te)
-		if err == nil {
-			err = c.expiration.Revoke(c.activeContext.Load(), leaseID)
-		}
-		if err != nil {
-			c.logger.Error("token needed revocation before seal but failed to revoke", "error", err)
-			retErr = multierror.Append(retErr, ErrInternalError)
-		}
-	}
+	revokeSpentToken()
 
 	// Unlock; sealing will grab the lock when needed
 	unlocked = true
